@@ -50,7 +50,7 @@ pub fn plan(prop: &str, tier: &str, ctx: &Ctx) -> (u64, u64, String) {
             (
                 ex + if thorough { 30_000_000 } else { 1_000_000 },
                 ex,
-                format!("every one of the 54 regular input families at 700 kB; every (context, follower, suffix) triple: 70 scanner contexts x 93 follower characters (34 ASCII classes, one representative per UTF-8 lead byte C2..F4, NEL, NBSP, LS, BOM) x 5 suffixes; every sequence of 1..{tl} tokens over the 36-token YAML alphabet {:?} and every string of length <= {l} over the 16-symbol alphabet {:?}, each x 16 environments", crate::gen::TOKENS, crate::gen::C10_ALPHABET),
+                format!("every one of the {} regular input families at 700 kB; every (context, follower, suffix) triple: {} scanner contexts x 93 follower characters (34 ASCII classes, one representative per UTF-8 lead byte C2..F4, NEL, NBSP, LS, BOM) x 5 suffixes; every sequence of 1..{tl} tokens over the 36-token YAML alphabet {:?} and every string of length <= {l} over the 16-symbol alphabet {:?}, each x 16 environments", crate::scale::FAMILIES.len(), crate::gen::CONTEXTS.len(), crate::gen::TOKENS, crate::gen::C10_ALPHABET),
             )
         }
         "C01" => {
